@@ -70,14 +70,14 @@ def _split_markers(text):
     return d
 
 
-def _observe(lang, tag, units, engines):
+def _observe(lang, tag, units, engines, limit=10):
     """-> {engine: (status, {unit: text}, diagnostics)}; status 'ok' | 'fail'"""
     p = os.path.join(lang.work, "x_%s.nano" % tag)
     with open(p, "w") as f:
         f.write(program_text(units))
     out = {}
     if "vm" in engines:
-        r = lang.vm(p, timeout=10)
+        r = lang.vm(p, timeout=limit)
         d = _split_markers(r["out"].decode(errors="replace"))
         ok = r["rc"] == 0 and "end" in d
         out["vm"] = ("ok" if ok else "fail", d, "rc=%s %s" % (r["rc"], (r["err"][-800:] + r["out"][-300:]).decode(errors="replace")))
@@ -97,7 +97,7 @@ def _observe(lang, tag, units, engines):
             d = {}
             ok = False
             if rc == 0 and os.path.exists(exe):
-                rc2, o2, e2 = common.run([exe], timeout=10, cwd=lang.work, tmp=lang.tmp)
+                rc2, o2, e2 = common.run([exe], timeout=limit, cwd=lang.work, tmp=lang.tmp)
                 d = _split_markers(o2.decode(errors="replace"))
                 ok = rc2 == 0 and "end" in d
                 diag2 = "run rc=%s %s" % (rc2, (e2[-600:] + o2[-200:]).decode(errors="replace"))
@@ -127,6 +127,18 @@ def _bisect(lang, tag, us, engines, res):
         return
     if len(us) == 1:
         u = us[0]
+        if any("timeout" in obs[e][2] for e in bad) and _ST.get("confirmed_hangs", 0) < 2:
+            # a run that hit its limit is repeated alone with a 12 x longer one before it counts as a failure
+            # (a loaded machine must not look like a hanging program)
+            obs2 = _observe(lang, tag + "t", us, bad, limit=120)
+            for e in obs2:
+                obs[e] = obs2[e]
+            bad = tuple(e for e in bad if obs[e][0] != "ok")
+            if any("timeout" in obs[e][2] for e in bad):
+                _ST["confirmed_hangs"] = _ST.get("confirmed_hangs", 0) + 1      # per worker process: two confirmations are enough
+            for e in obs2:
+                if e in u["engines"] and e not in bad:
+                    res[u["name"]][e] = ("ok", obs[e][1].get(u["name"], ""))
         for e in bad:
             if e not in u["engines"]:
                 continue
